@@ -26,6 +26,8 @@ C10_OK(ev, i) == LET a == Base(ev, i) b == Base2(ev, i) IN
   ELSE /\ Stacked(a.rows, b.rows, ev.rows, ev.rel.gap)
        /\ UnionDoc(a.doc, b.doc, ev.doc, 0, 16000 * (Len(a.rows) + ev.rel.gap))
 C11_OK(ev, i) == LET a == Base(ev, i) IN a.rows = ev.rows /\ ScaledDoc(a.doc, ev.doc)
+\* the same through the entry point that takes the page size from the caller: the page is the caller's, every other length scales
+C11ov_OK(ev, i) == LET a == Base(ev, i) IN a.rows = ev.rows /\ a.doc.wf = 1 /\ ev.doc.wf = 1 /\ SameBag(a.doc.elems, ev.doc.elems)
 C15_OK(ev, i) == LET a == Base(ev, i) ca == DrawCells(a) cb == DrawCells(ev) IN
   /\ QuoteDomain(ca) /\ ~HasQuoted(cb)
   /\ Len(ca) = Len(cb)
@@ -70,6 +72,7 @@ Holds0(ev, i, p) ==
     [] p = "C06" -> C06_OK(ev, i)
     [] p = "C10" -> C10_OK(ev, i)
     [] p = "C11" -> C11_OK(ev, i)
+    [] p = "C11ov" -> C11ov_OK(ev, i)
     [] p = "C17" -> C17_OK(ev, i)
     [] p = "C16app" -> C16app_OK(ev, i)
     [] p = "C15" -> C15_OK(ev, i)
@@ -104,7 +107,7 @@ NonTrivial(ev0, i, p) ==
     [] p = "C16tags" -> Len(ev.tags) > 0
     [] p = "C05s" -> C05s_NT(ev)
     [] p \in {"C05box", "C05multi"} -> TRUE
-    [] p \in {"C06", "C10", "C11", "C17", "C16app"} -> Len(ev.doc.elems) > 0
+    [] p \in {"C06", "C10", "C11", "C11ov", "C17", "C16app"} -> Len(ev.doc.elems) > 0
     [] OTHER -> FALSE
 
 Init == l = 1 /\ bad = {} /\ nt = 0
